@@ -31,6 +31,9 @@ type CrashCase struct {
 // that fail): for them the state before and the state after are the same state.
 var crashAllowRejected bool
 
+// crashEmptyStorePct: percent of instances whose store is freshly initialised.
+var crashEmptyStorePct int
+
 // crashExtraSetup, when set, appends a fixed structure to the setup history.
 var crashExtraSetup func(rt *rapid.T, base int) []Op
 
@@ -226,6 +229,10 @@ func runCrashTest(t *testing.T, prop, test, rule string, gen func(rt *rapid.T, w
 		w := NewWorld(prop)
 		defer w.Close()
 		nsetup := between(rt, 2, 9, "setup.n")
+		if crashEmptyStorePct > 0 && pct(rt, crashEmptyStorePct, "setup.empty") {
+			nsetup = 0 // the command is the first one the store ever sees
+			stats.Label("store_empty_before_the_command")
+		}
 		var setup []Op
 		pre, ok := func() (*Snapshot, bool) {
 			pre, err := TakeSnapshot(w.Root)
@@ -353,6 +360,7 @@ func TestC04Rejected(t *testing.T) {
 }
 
 func TestC11Crash(t *testing.T) {
+	crashEmptyStorePct = 18
 	runCrashTest(t, "C11", "TestC11Crash", "generated stores and generated valid plan documents (2-15 tasks, random DAG); the plan command is re-run on a fresh copy once per system call it issues on the store's files and killed by SIGKILL exactly before that call; after each kill the store must show either nothing of the plan or the whole plan; non-trivial = the kill landed after the command's first and before its last mutating call; distinct = (plan shape, kill position)", func(rt *rapid.T, w *World, pre *Snapshot) Op {
 		return Op{Kind: "plan", Plan: genRichPlan(rt, w)}
 	})
@@ -363,7 +371,7 @@ func genFaultOp(rt *rapid.T, w *World, pre *Snapshot, prof Profile) Op {
 		// a log larger than the 64 KiB windows readers and repair code work with
 		return Op{Kind: "new_task", Mode: "bodystdin", Title: sp(w.UniqueTitle("big")), Body: sp(bigBody(between(rt, 66000, 210000, "c03.bigsize")))}
 	}
-	if w.StepNo >= 2 && pct(rt, 30, "fault?") {
+	if (w.StepNo >= 2 && pct(rt, 30, "fault?")) || (w.StepNo < 2 && pct(rt, 12, "fault.early?")) {
 		var inner Op
 		if pct(rt, 60, "fault.multi") {
 			inner = genMultiEventOp(rt, w, pre)
